@@ -92,7 +92,7 @@ impl Rng {
 }
 
 fn free_port() -> u16 {
-    TcpListener::bind("127.0.0.1:0").unwrap().local_addr().unwrap().port()
+    verif_harness::claim_port()
 }
 
 // ---------------------------------------------------------------- backend
